@@ -977,8 +977,9 @@ UNITS["mgr"] = {
     "src": "src/dht_network_manager.rs",
     "spec": "verus/mgr.spec.rs",
     "shims": {
-        "DHTNode": (None, {"peer_id": "String", "distance": "Option<Vec<u8>>", "cached_dht_key": "Option<DhtKey>"}),
+        "DHTNode": (None, {"peer_id": "String", "address": "String", "distance": "Option<Vec<u8>>", "reliability": "f64", "cached_dht_key": "Option<DhtKey>"}),
         "DhtNetworkManager": (None, {}),
+        "DhtPeerInfo": (None, {"dht_key": "Key", "addresses": "Vec<Multiaddr>", "is_connected": "bool", "reliability_score": "f64"}),
     },
     "items": [
         {"impl": "DhtNetworkManager", "fn": "compare_node_distance",
@@ -1536,7 +1537,7 @@ UNITS["placement"] = {
         "DiversityEnforcer": (None, {"min_geographic_distance": "f64", "max_nodes_per_region": "usize", "max_nodes_per_asn": "usize", "diversity_penalty": "f64"}),
     },
     "items": [
-        {"impl": "DiversityEnforcer", "fn": "validate_selection", "erase_error_structs": ["PlacementError::"], "desugar": ["enumerate"], "loop_count": 6,
+        {"impl": "DiversityEnforcer", "fn": "validate_selection", "erase_error_structs": ["PlacementError::"], "desugar": ["continue", "enumerate"], "loop_count": 6,
          "rewrite": [
              (r"self\.min_geographic_distance / 2\.0", "verif_f64(self.min_geographic_distance) / 2.0", "struct-field read wrapped in the verified identity verif_f64 (trigger matching of the float axioms)"),
              (r"for \(node_a, loc_a, _, _\) in selection\.iter\(\)", "for (node_a, loc_a, _, _) in it_a: selection.iter()", "ghost iterator binder (binder only)"),
@@ -1607,7 +1608,6 @@ UNITS["placement"] = {
 """},
     ],
     "paired_kani": [],
-    "pinned_fns": [("src/placement/algorithms.rs", "WeightedSampler", "sample_nodes", "750ea5ddf41bd5e2", "k names taken from the candidates or an error -- ASSUMED (outside the dialect); exercised by the native search")],
     "search_test": "verif_search_c17",
     "trusted": [
         "ASSUMED: GeographicLocation::distance_km is a deterministic function of its arguments (uninterpreted haversine); HashMap through vstd with the key model assumed for NetworkRegion / NodeId; `*map.entry(k).or_insert(0) += 1` behind a shim; IEEE comparison / division uninterpreted (float prelude)",
@@ -1691,6 +1691,7 @@ UNITS["placement"]["items"] += [
      "insert_before": [
          (r"selected_nodes\.push\(\(selected_node\.clone\(\), \*location, \*asn, \*region\)\);", None, """let ghost s_prev = selected_nodes@;
             proof {
+                assert(drawn_from(weights@, selected@[0]));
                 let i0 = choose|i: int| 0 <= i < weights@.len() && (#[trigger] weights@[i]).0 == selected@[0];
                 assert(remaining_candidates@.contains(weights@[i0].0));
                 assert(remaining_candidates@.contains(selected_node));
@@ -1722,3 +1723,87 @@ UNITS["placement"]["items"] += [
         r matches Ok(d) ==> asns_capped(old(self).diversity_enforcer, with_meta(d.selected_nodes@, node_metadata@)), // @C17/select/no_autonomous_system_holds_more_named_nodes_than_its_cap
 """},
 ]
+
+UNITS["mgr"]["items"].append(
+    {"impl": "DhtNetworkManager", "fn": "find_closest_nodes_local", "drop_macros": ["debug!", "warn!"], "desugar": ["match_continue", "continue"],
+     "block": {"name": "verif_find_closest_nodes_local_sequential", "of": "DhtNetworkManager::find_closest_nodes_local",
+               "sig": "fn verif_find_closest_nodes_local_sequential(&self, peers_g: &HashMap<PeerId, DhtPeerInfo>, dht_g: &DhtCoreEngine, key: &Key, count: usize) -> Vec<DHTNode>",
+               "why": "await erasure: the awaits are two tokio RwLock acquisitions (connected peers, engine) and the call of the engine's async find_nodes (some table entries or an error: no contract needed); the guarded objects became parameters"},
+     "rewrite": [
+         (r"let peers = self\.dht_peers\.read\(\)\.await;", "let peers = peers_g;", "lock acquisition replaced by the parameter that stands for the guarded map of connected peers"),
+         (r"let dht_guard = self\.dht\.read\(\)\.await;", "let dht_guard = dht_g;", "lock acquisition replaced by the parameter that stands for the guarded engine"),
+         (r"\.await\b", "", "await erased (call of the engine's find_nodes)"),
+         (r"peer_info\.addresses\.first\(\)", "verif_first_addr(&peer_info.addresses)", "Vec::first renamed to a shim fn"),
+         (r"peer_info\.dht_key\.to_vec\(\)", "verif_key_to_vec(&peer_info.dht_key)", "<[u8; 32]>::to_vec renamed to a shim fn"),
+         (r"Err\(e\) => \{", "Err(_e) => {", "binding unused after the logging statement was dropped"),
+         (r"Self::compare_node_distance", "DhtNetworkManager::compare_node_distance", "`Self::` written out (the statement is outlined into a free function)"),
+         (r"reliability: node\.capacity\.reliability_score,", "reliability: verif_f64x(node.capacity.reliability_score),", "f64 field read wrapped in a verified identity function (Verus encoding quirk; the value is unchanged)"),
+     ],
+     "loops": {
+         0: """
+                invariant listed_once(all_nodes@, seen_keys@),
+""",
+         1: """
+                        invariant listed_once(all_nodes@, seen_keys@),
+""",
+     },
+     "insert_before": [
+         (r"if !seen_keys\.insert\(peer_info\.dht_key\)", None, "let ghost v0 = all_nodes@; let ghost s0 = seen_keys@;"),
+         (r"if seen_keys\.insert\(\*node\.id\.as_bytes\(\)\)", None, "let ghost v0 = all_nodes@; let ghost s0 = seen_keys@;"),
+     ],
+     "insert_after": [
+         (r"cached_dht_key: Some\(DhtKey::from_bytes\(peer_info\.dht_key\)\),\s*\}\);", None, "proof { lemma_listed_push(v0, s0, all_nodes@.last(), peer_info.dht_key); assert(all_nodes@ == v0.push(all_nodes@.last())); }"),
+         (r"cached_dht_key: Some\(DhtKey::from_bytes\(\*node\.id\.as_bytes\(\)\)\),\s*\}\);", None, "proof { lemma_listed_push(v0, s0, all_nodes@.last(), node.id.0.0); assert(all_nodes@ == v0.push(all_nodes@.last())); }"),
+     ],
+     "outline_tail": {
+         "start": r"all_nodes\.sort_by\(",
+         "fn": "verif_sort_take_tail",
+         "params": "all_nodes: Vec<DHTNode>, key: &Key, count: usize",
+         "ret": "Vec<DHTNode>",
+         "prelude": "    let mut all_nodes = all_nodes;",
+         "spec": """    ensures
+        r@.len() <= count, r@.len() <= all_nodes@.len(),
+        forall|i: int, j: int| 0 <= i < j < r@.len() ==> exists|a: int, b: int| 0 <= a < all_nodes@.len() && 0 <= b < all_nodes@.len() && a != b
+            && #[trigger] r@[i] == all_nodes@[a] && #[trigger] r@[j] == all_nodes@[b],""",
+         "call": "verif_sort_take_tail(all_nodes, key, count)",
+     },
+     "spec": """
+    ensures
+        r@.len() <= count, // @C02/local/never_more_than_count_entries
+        keys_distinct(r@), // @C02/local/each_peer_is_named_once_under_a_single_identifier
+"""})
+UNITS["mgr"]["search_test"] = "verif_search_c02_local"
+UNITS["mgr"]["trusted"] += [
+    "await erasure (find_closest_nodes_local): lock acquisitions became parameters; DhtCoreEngine::find_nodes is an opaque callee (some entries or an error); is_local_peer_id opaque",
+    "ASSUMED: the outlined tail `all_nodes.sort_by(compare_node_distance); into_iter().take(count).collect()` returns at most count elements taken from pairwise different positions of the list (std: stable sort is a permutation, take/collect keep a prefix); HashSet<[u8; 32]> through vstd (key model assumed); `continue` statements desugared mechanically",
+]
+
+_PL_SAMPLE_PROOF = '''proof {
+            w0.to_multiset_ensures(); w1.to_multiset_ensures();
+            assert forall|j: int| 0 <= j < verif_out@.len() implies drawn_from(candidates@, #[trigger] verif_out@[j]) by {
+                assert(w1.contains(w1[j]));
+                assert(w0.to_multiset().count(w1[j]) > 0);
+                assert(w0.contains(w1[j]));
+                let i = choose|i: int| 0 <= i < w0.len() && w0[i] == w1[j];
+                assert(candidates@[i].0 == w0[i].1);
+            }
+        }'''
+
+UNITS["placement"]["items"].insert(2,
+    {"impl": "WeightedSampler", "fn": "sample_nodes", **_PL_ERR,
+     "closures": [{"at": r"\|\(node_id, weight\)\|", "params": "|e: &(NodeId, f64)|", "ret": "PlacementResult<(f64, NodeId)>",
+                   "prelude": "let (node_id, weight) = e;", "ensures": "ret matches Ok(p) ==> p.1 == e.0"}],
+     "rewrite": [
+         (r"candidates\s*\.iter\(\)\s*\.map\(", "verif_try_map_collect(candidates, ", "iterator chain `xs.iter().map(f).collect::<Result<Vec<_>, _>>()` renamed to a shim fn whose contract is the documented std behaviour, stated through the closure's own contract; the closure stays in place and is verified"),
+         (r"\)\s*\.collect::<PlacementResult<Vec<_>>>\(\)\?;", ")?;", "end of the renamed chain"),
+         (r"fastrand::f64\(\)", "verif_rand_f64()", "random draw renamed to an opaque shim (any value)"),
+         (r"u\.powf\(1\.0 / weight\)", "verif_powf(u, 1.0 / *weight)", "f64::powf renamed to an opaque shim (any value); `f64 / &f64` written with an explicit deref"),
+         (r"weighted_keys\.sort_by\(\|a, b\| b\.0\.partial_cmp\(&a\.0\)\.unwrap_or\(std::cmp::Ordering::Equal\)\);", "let ghost w0 = weighted_keys@;\n verif_sort_keys(&mut weighted_keys);\n let ghost w1 = weighted_keys@;", "`keys.sort_by(cmp)` renamed to a shim fn (contract: a permutation; which candidates end up first is not part of any obligation); ghost copies"),
+         (r"Ok\(weighted_keys\s*\.into_iter\(\)\s*\.take\(k\)\s*\.map\(\|\(_, node_id\)\| node_id\)\s*\.collect\(\)\)", "let verif_out = verif_take_ids(weighted_keys, k);\n " + _PL_SAMPLE_PROOF + "\n Ok(verif_out)", "iterator chain `into_iter().take(k).map(|(_, id)| id).collect()` renamed to a shim fn (contract: ids of the first min(k, len) entries); result bound to a local so that a proof block can name it"),
+     ],
+     "spec": """
+    ensures
+        r matches Ok(v) ==> v@.len() == k, // @C17/sample/a_draw_names_exactly_k_nodes
+        r matches Ok(v) ==> forall|j: int| 0 <= j < v@.len() ==> drawn_from(candidates@, #[trigger] v@[j]), // @C17/sample/every_drawn_node_is_one_of_the_candidates
+        r.is_ok() ==> k <= candidates@.len(), // @C17/sample/never_more_than_available
+"""})
